@@ -7,6 +7,7 @@ source file lies under the repository (and the harness' peer estimators), and
 explicit seam calls (entropy draws, fault sites).
 """
 import os
+import pickle
 import sys
 import threading
 
@@ -23,14 +24,18 @@ def register_traced_file(path):
 
 
 class SchedConfig:
-    def __init__(self, mode, gran, pct_depth=0, wide=None):
+    def __init__(self, mode, gran, pct_depth=0, wide=None, backend="threads"):
         self.mode = mode
         self.gran = gran
         self.pct_depth = pct_depth
         self.wide = wide  # pool size used for n_jobs=-1
+        # "processes": the user selected a process-based joblib backend
+        # (prefer="threads" is only a hint): every task works on pickled copies
+        # of its arguments and its result is pickled back -- nothing is shared
+        self.backend = backend
 
     def describe(self):
-        return {"mode": self.mode, "gran": self.gran, "pct_depth": self.pct_depth, "wide": self.wide}
+        return {"mode": self.mode, "gran": self.gran, "pct_depth": self.pct_depth, "wide": self.wide, "backend": self.backend}
 
 
 def draw_config(c):
@@ -42,7 +47,8 @@ def draw_config(c):
         gran = ch.weighted("s", [("line", 5), ("opcode", 2)], "gran")
     depth = 1 + ch.draw("s", 3, "pct-depth") if mode == "pct" else 0
     wide = 2 + ch.draw("s", 3, "wide")
-    return SchedConfig(mode, gran, depth, wide)
+    backend = ch.weighted("s", [("threads", 5), ("processes", 1)], "backend")
+    return SchedConfig(mode, gran, depth, wide, backend)
 
 
 class _Worker:
@@ -75,6 +81,9 @@ class Scheduler:
         self.inflight = 0
         self.max_inflight = 0
         self.harness_error = None
+        self.copy_args = cfg.backend == "processes" and not getattr(c, "require_sharedmem", False)
+        if self.copy_args:
+            c.probe("process_backend_simulated")
         self.shutdown = False
         self.steps = 0
         self.pct_points = ()
@@ -99,6 +108,14 @@ class Scheduler:
             return False
         idx = self.n_dispatched
         self.n_dispatched += 1
+        if self.copy_args:
+            func, args, kwargs = item
+            try:
+                args, kwargs = pickle.loads(pickle.dumps((args, kwargs)))
+                item = (func, args, kwargs)
+            except Exception:  # noqa: BLE001 -- unpicklable argument: this call stays on threads
+                self.copy_args = False
+                self.c.probe("process_backend_fell_back_to_threads")
         self.queue.append((idx, item))
         return True
 
@@ -236,6 +253,8 @@ class Scheduler:
                         res = func(*args, **kwargs)
                     finally:
                         sys.settrace(None)
+                    if self.copy_args:
+                        res = pickle.loads(pickle.dumps(res))
                     self.results[idx] = res
                 except BaseException as e:  # noqa: BLE001
                     self.errors[idx] = e
@@ -367,10 +386,11 @@ def _boot_prefixes():
 class SimParallel:
     """Drop-in for ``joblib.Parallel`` as used by mlinsights."""
 
-    def __init__(self, n_jobs=None, verbose=0, prefer=None, **kwargs):
+    def __init__(self, n_jobs=None, verbose=0, prefer=None, require=None, **kwargs):
         self.n_jobs = n_jobs
         self.verbose = verbose
         self.prefer = prefer
+        self.require = require
 
     def __call__(self, iterable):
         c = _ctx.current()
@@ -402,5 +422,6 @@ class SimParallel:
             n_jobs = cfg.wide
         n_jobs = max(1, min(int(n_jobs), 8))
         warm_opcode_tracing()
+        c.require_sharedmem = self.require == "sharedmem"
         sch = Scheduler(c, cfg, n_jobs, iterator)
         return sch.run()
